@@ -456,7 +456,7 @@ def run_shard(shard, nshards, seed_, tier_, out):
     import geodepy.ntv2reader as N
     import geodepy.transform as T
     rng = random.Random(f'{seed_}:corr_ntv2:{shard}')
-    nfiles, nq = (60, 70) if tier_ == 'quick' else (800, 110)
+    nfiles, nq = (60 * scale(), 70) if tier_ == 'quick' else (800, 110)  # noqa: F405
     stats = Stats()
     lines, expect, meta = [], [], []
     tmpdir = tempfile.mkdtemp(prefix='ntv2corr', dir='/dev/shm' if os.path.isdir('/dev/shm') else None)
